@@ -1,2 +1,207 @@
-(* Proofs/DivSigned.v *)
+(* Proofs/DivSigned.v — the signed division API of Model/Div.v (everything built on
+   I_div_rem_unchecked), relative to the functional spec `U_div_rem_spec w` of the unsigned
+   core (Proofs/DivSpec.v).  Notation in comments: M = Mod w n, SA = sval w a, SB = sval w b,
+   MIN = -(M/2), MAX = M/2 - 1. *)
 From Bnum Require Import Base Prim.
+From Bnum.Model Require Import Digit Core Shift AddSub Mul Div.
+From Bnum.Proofs Require Import DivAux DivSpec SignedAux DivUnsignedWrap.
+
+(* the one overflowing input of signed division *)
+Definition min_neg_one (w : Z) (n : nat) (a b : list Z) : Prop :=
+  sval w a = - (Mod w n / 2) /\ sval w b = -1.
+
+(* ---------- pure Z: truncated division through magnitudes ---------- *)
+
+Lemma quot_rem_abs SA SB : SB <> 0 ->
+  Z.quot SA SB = (if xorb (SA <? 0) (SB <? 0) then - (Z.abs SA / Z.abs SB) else Z.abs SA / Z.abs SB) /\
+  Z.rem SA SB = (if SA <? 0 then - (Z.abs SA mod Z.abs SB) else Z.abs SA mod Z.abs SB).
+Proof.
+  intros Hnz. destruct (Z.ltb_spec SA 0) as [HA|HA]; destruct (Z.ltb_spec SB 0) as [HB|HB]; cbn [xorb].
+  - rewrite (Z.abs_neq SA), (Z.abs_neq SB) by lia.
+    rewrite <- (Z.opp_involutive SA) at 1 3. rewrite <- (Z.opp_involutive SB) at 1 3.
+    rewrite Z.quot_opp_opp, Z.rem_opp_opp by lia.
+    rewrite Z.quot_div_nonneg, Z.rem_mod_nonneg by lia. split; reflexivity.
+  - rewrite (Z.abs_neq SA), (Z.abs_eq SB) by lia.
+    rewrite <- (Z.opp_involutive SA) at 1 3.
+    rewrite Z.quot_opp_l, Z.rem_opp_l by lia.
+    rewrite Z.quot_div_nonneg, Z.rem_mod_nonneg by lia. split; reflexivity.
+  - rewrite (Z.abs_eq SA), (Z.abs_neq SB) by lia.
+    rewrite <- (Z.opp_involutive SB) at 1 3.
+    rewrite Z.quot_opp_r, Z.rem_opp_r by lia.
+    rewrite Z.quot_div_nonneg, Z.rem_mod_nonneg by lia. split; reflexivity.
+  - rewrite (Z.abs_eq SA), (Z.abs_eq SB) by lia.
+    rewrite Z.quot_div_nonneg, Z.rem_mod_nonneg by lia. split; reflexivity.
+Qed.
+
+Lemma abs_div_bounds X Y h : 1 <= h -> 0 <= X <= h -> 1 <= Y ->
+  0 <= X / Y <= h /\ (X / Y = h -> X = h /\ Y = 1) /\ 0 <= X mod Y < Y.
+Proof.
+  intros Hh HX HY. pose proof (Z.div_mod X Y ltac:(lia)) as E.
+  pose proof (Z.mod_pos_bound X Y ltac:(lia)) as Hr.
+  assert (0 <= X / Y) by (apply Z.div_pos; lia).
+  assert (X / Y <= X) by nia.
+  split; [lia|]. split; [|lia]. intros Eq. assert (X = h) by lia. split; [assumption|]. rewrite Eq in E. nia.
+Qed.
+
+(* truncated quotient / remainder: the defining equation with the sign and size of the remainder *)
+Lemma quot_rem_facts SA SB : SB <> 0 ->
+  SA = Z.quot SA SB * SB + Z.rem SA SB /\ Z.abs (Z.rem SA SB) < Z.abs SB /\
+  (0 <= SA -> 0 <= Z.rem SA SB) /\ (SA <= 0 -> Z.rem SA SB <= 0).
+Proof.
+  intros Hnz. pose proof (Z.quot_rem' SA SB) as E. pose proof (Z.rem_bound_abs SA SB Hnz).
+  split; [lia|]. split; [assumption|]. split; intros HS.
+  - apply Z.rem_nonneg; auto.
+  - apply Z.rem_nonpos; auto.
+Qed.
+
+Lemma rem_neg_one x : Z.rem x (-1) = 0.
+Proof. pose proof (Z.rem_bound_abs x (-1) ltac:(lia)). lia. Qed.
+
+Lemma quot_neg_one x : Z.quot x (-1) = - x.
+Proof. pose proof (Z.quot_rem' x (-1)) as E. rewrite rem_neg_one in E. lia. Qed.
+
+(* ---------- small reading lemmas ---------- *)
+
+Lemma sval_small w n a : 0 < w -> (0 < n)%nat -> wf w n a -> uval w a < Mod w n / 2 ->
+  sval w a = uval w a.
+Proof.
+  intros Hw Hn Ha Hlt. pose proof (uval_bounds w n a ltac:(lia) Ha).
+  apply (sval_intro_k w n _ _ 0); auto; lia.
+Qed.
+
+Lemma sval_half w n a : 0 < w -> (0 < n)%nat -> wf w n a -> uval w a = Mod w n / 2 ->
+  sval w a = - (Mod w n / 2).
+Proof.
+  intros Hw Hn Ha He. pose proof (Mod_even w n Hw Hn). pose proof (Mod_half_pos w n Hw Hn).
+  apply (sval_intro_k w n _ _ 1); auto; lia.
+Qed.
+
+Lemma uval_one_sval w n b : 0 < w -> (0 < n)%nat -> wf w n b -> uval w b = 1 ->
+  sval w b = 1 \/ (Mod w n = 2 /\ sval w b = -1).
+Proof.
+  intros Hw Hn Hb H1. pose proof (uval_sval w n b Hw Hn Hb) as E.
+  pose proof (sval_range w n b Hw Hn Hb). pose proof (Mod_even w n Hw Hn).
+  destruct (Z.ltb_spec (sval w b) 0); lia.
+Qed.
+
+Lemma sval_one_uval w n b : 0 < w -> (0 < n)%nat -> wf w n b -> sval w b = 1 -> uval w b = 1.
+Proof.
+  intros Hw Hn Hb H1. pose proof (uval_sval w n b Hw Hn Hb) as E.
+  destruct (Z.ltb_spec (sval w b) 0); lia.
+Qed.
+
+(* ---------- div_rem_unchecked ---------- *)
+
+(* every nonzero divisor: never a panic, in either build mode; the remainder is always exact and the
+   quotient is exact except for MIN / -1, where it is the bit pattern of MIN *)
+Lemma I_div_rem_unchecked_core dbg w n a b :
+  0 < w -> U_div_rem_spec w -> (0 < n)%nat -> wf w n a -> wf w n b -> sval w b <> 0 ->
+  exists q r, I_div_rem_unchecked dbg w a b = Ret (q, r) /\ wf w n q /\ wf w n r /\
+    sval w r = Z.rem (sval w a) (sval w b) /\
+    (min_neg_one w n a b -> sval w q = - (Mod w n / 2)) /\
+    (~ min_neg_one w n a b -> sval w q = Z.quot (sval w a) (sval w b)).
+Proof.
+  intros Hw HS Hn Ha Hb Hnz.
+  pose proof (Mod_pos w n ltac:(lia)) as HM. pose proof (Mod_even w n Hw Hn) as HMe.
+  pose proof (Mod_half_pos w n Hw Hn) as Hh.
+  pose proof (sval_range w n a Hw Hn Ha) as RA. pose proof (sval_range w n b Hw Hn Hb) as RB.
+  unfold min_neg_one.
+  unfold I_div_rem_unchecked. rewrite (wf_length _ _ _ Ha).
+  rewrite (eq_IMIN_spec w n a), (is_one_spec w n b) by auto.
+  destruct ((sval w a =? - (Mod w n / 2)) && (uval w b =? 1)) eqn:Esc.
+  { apply andb_true_iff in Esc. destruct Esc as [E1 E2]. apply Z.eqb_eq in E1, E2.
+    exists a, (ZERO n). split; [reflexivity|]. split; [exact Ha|]. split; [apply wf_ZERO; lia|].
+    rewrite sval_ZERO by auto.
+    destruct (uval_one_sval w n b Hw Hn Hb E2) as [S1 | [M2 S1]].
+    - rewrite S1, Z.rem_1_r, Z.quot_1_r. split; [reflexivity|]. split; intros _; [exact E1 | reflexivity].
+    - rewrite E1, S1, M2. split; [reflexivity|]. split; [intros _; reflexivity|].
+      intros Hc. exfalso. apply Hc. split; reflexivity. }
+  assert (Hns : ~ (sval w a = - (Mod w n / 2) /\ sval w b = 1)).
+  { intros [E1 E2]. apply andb_false_iff in Esc. destruct Esc as [Esc|Esc]; apply Z.eqb_neq in Esc.
+    - contradiction.
+    - apply Esc. apply (sval_one_uval w n); auto. }
+  clear Esc.
+  destruct (I_unsigned_abs_spec w n a Hw Hn Ha) as [Hua Hva].
+  destruct (I_unsigned_abs_spec w n b Hw Hn Hb) as [Hub Hvb].
+  assert (Hbnz : uval w (I_unsigned_abs w b) <> 0) by lia.
+  destruct (U_div_rem_unchecked_val w n _ _ Hw HS Hua Hub Hbnz) as (Hd & Hr & Hdv & Hrv).
+  rewrite Hva, Hvb in Hdv, Hrv.
+  destruct (U_div_rem_unchecked w (I_unsigned_abs w a) (I_unsigned_abs w b)) as [d r].
+  cbn [fst snd] in *.
+  destruct (abs_div_bounds (Z.abs (sval w a)) (Z.abs (sval w b)) (Mod w n / 2))
+    as (D1 & D2 & D3); [lia | lia | lia |].
+  rewrite <- Hdv in D1, D2. rewrite <- Hrv in D3.
+  assert (Hsr : sval w r = uval w r) by (apply (sval_small w n); auto; lia).
+  pose proof (quot_rem_abs (sval w a) (sval w b) Hnz) as QR.
+  rewrite <- Hdv, <- Hrv in QR. destruct QR as [Q R].
+  rewrite (is_negative_spec w n a), (is_negative_spec w n b) by auto.
+  assert (Hnegr : SRet w n (I_neg dbg w r) (- sval w r)).
+  { apply I_neg_spec; auto. lia. }
+  destruct Hnegr as (r' & Er' & Hr' & Hvr').
+  assert (Hdec : (sval w a = - (Mod w n / 2) /\ sval w b = -1) \/
+                 ~ (sval w a = - (Mod w n / 2) /\ sval w b = -1)) by lia.
+  destruct Hdec as [[E1 E2] | Hno].
+  - (* MIN / -1 *)
+    replace (sval w a <? 0) with true in * by (symmetry; apply Z.ltb_lt; lia).
+    replace (sval w b <? 0) with true in * by (symmetry; apply Z.ltb_lt; lia).
+    rewrite Er'. cbn [omap]. exists d, r'.
+    split; [reflexivity|]. split; [exact Hd|]. split; [exact Hr'|].
+    split; [rewrite Hvr', Hsr; exact (eq_sym R)|].
+    split; [intros _ | intros Hc; exfalso; apply Hc; auto].
+    apply (sval_half w n); auto. rewrite Hdv, E1, E2.
+    change (Z.abs (-1)) with 1. rewrite Z.div_1_r. lia.
+  - assert (Hdlt : uval w d < Mod w n / 2).
+    { destruct (Z.eq_dec (uval w d) (Mod w n / 2)) as [Eq|Ne]; [|lia].
+      destruct (D2 Eq) as [X1 X2]. exfalso.
+      assert (sval w a = - (Mod w n / 2)) by lia.
+      assert (sval w b = 1 \/ sval w b = -1) by lia. intuition. }
+    assert (Hsd : sval w d = uval w d) by (apply (sval_small w n); auto).
+    assert (Hnegd : SRet w n (I_neg dbg w d) (- sval w d)).
+    { apply I_neg_spec; auto. lia. }
+    destruct Hnegd as (d' & Ed' & Hd' & Hvd').
+    revert Q R.
+    destruct (Z.ltb_spec (sval w a) 0) as [SA|SA]; destruct (Z.ltb_spec (sval w b) 0) as [SB|SB];
+      cbn [xorb]; intros Q R.
+    + rewrite Er'. cbn [omap]. exists d, r'.
+      split; [reflexivity|]. split; [exact Hd|]. split; [exact Hr'|].
+      split; [rewrite Hvr', Hsr; exact (eq_sym R)|].
+      split; [intros Hc; exfalso; apply Hno; exact Hc | intros _; rewrite Hsd; exact (eq_sym Q)].
+    + rewrite Ed'. cbn [obind]. rewrite Er'. cbn [omap]. exists d', r'.
+      split; [reflexivity|]. split; [exact Hd'|]. split; [exact Hr'|].
+      split; [rewrite Hvr', Hsr; exact (eq_sym R)|].
+      split; [intros Hc; exfalso; apply Hno; exact Hc | intros _; rewrite Hvd', Hsd; exact (eq_sym Q)].
+    + rewrite Ed'. cbn [omap]. exists d', r.
+      split; [reflexivity|]. split; [exact Hd'|]. split; [exact Hr|].
+      split; [rewrite Hsr; exact (eq_sym R)|].
+      split; [intros Hc; exfalso; apply Hno; exact Hc | intros _; rewrite Hvd', Hsd; exact (eq_sym Q)].
+    + exists d, r.
+      split; [reflexivity|]. split; [exact Hd|]. split; [exact Hr|].
+      split; [rewrite Hsr; exact (eq_sym R)|].
+      split; [intros Hc; exfalso; apply Hno; exact Hc | intros _; rewrite Hsd; exact (eq_sym Q)].
+Qed.
+
+Theorem I_div_rem_unchecked_ok dbg w n a b :
+  0 < w -> U_div_rem_spec w -> (0 < n)%nat -> wf w n a -> wf w n b ->
+  sval w b <> 0 -> ~ min_neg_one w n a b ->
+  exists q r, I_div_rem_unchecked dbg w a b = Ret (q, r) /\ wf w n q /\ wf w n r /\
+    sval w q = Z.quot (sval w a) (sval w b) /\ sval w r = Z.rem (sval w a) (sval w b).
+Proof.
+  intros Hw HS Hn Ha Hb Hnz Hno.
+  destruct (I_div_rem_unchecked_core dbg w n a b Hw HS Hn Ha Hb Hnz)
+    as (q & r & E & Hq & Hr & Hrv & _ & Hqv).
+  exists q, r. split; [exact E|]. split; [exact Hq|]. split; [exact Hr|].
+  split; [apply Hqv; exact Hno | exact Hrv].
+Qed.
+
+(* MIN / -1 through div_rem_unchecked: no panic in either mode, the pair (MIN, 0) *)
+Theorem I_div_rem_unchecked_min_neg_one dbg w n a b :
+  0 < w -> U_div_rem_spec w -> (0 < n)%nat -> wf w n a -> wf w n b -> min_neg_one w n a b ->
+  exists q r, I_div_rem_unchecked dbg w a b = Ret (q, r) /\ wf w n q /\ wf w n r /\
+    sval w q = - (Mod w n / 2) /\ sval w r = 0.
+Proof.
+  intros Hw HS Hn Ha Hb Hmno. assert (Hnz : sval w b <> 0) by (destruct Hmno; lia).
+  destruct (I_div_rem_unchecked_core dbg w n a b Hw HS Hn Ha Hb Hnz)
+    as (q & r & E & Hq & Hr & Hrv & Hqv & _).
+  exists q, r. repeat (split; [assumption|]). split; [auto|].
+  rewrite Hrv. destruct Hmno as [_ ->]. apply rem_neg_one.
+Qed.
